@@ -17,7 +17,7 @@ RULE = (
 )
 BOUNDS = {
     "quick": "N in {19,20,21} x 4 orders (transposition-invisible square case); all orders within 1 transposition (191) + 19 rotations + reversal; N in 1..3; N=1: every single-cell NaN; 6 construction x 2 write paths",
-    "thorough": "N in {19,20,21} x 4 orders; all orders within 2 transpositions (~17.5k) + rotations + reversal; N in 1..5; 6 construction x 2 write paths",
+    "thorough": "N in {19,20,21} x 4 orders; all orders within 1 transposition + rotations + reversal x N in 1..5 x all NaN patterns x 6 construction x 2 write paths; all ~17.7k orders at exactly 2 transpositions x N=2 x 2 NaN patterns x 2 construction x 2 write paths",
 }
 ASSUMPTIONS = [
     "values are finite float64 inside float32 range (palette: non-representable doubles, denormals, -0.0, 3e38) or NaN",
@@ -160,7 +160,7 @@ def execute(case, obs):
 
 def orders(tier):
     base = tuple(COLS)
-    lst = list(neighbourhood_swaps(base, 1 if tier == "quick" else 2))
+    lst = list(neighbourhood_swaps(base, 1))
     seen = set(lst)
     extra = [base[k:] + base[:k] for k in range(1, 20)] + [tuple(reversed(base))]
     for o in extra:
@@ -215,7 +215,15 @@ def families(tier, seed):
         coll.append((n, ()))
         coll.append((n, ((n - 1, 0), (0, 19), (n // 2, 7))))
     sp2 = Mapped(Product(few_orders, Listed(coll), CONSTRUCT, WRITE), mk)
-    return [
+    extra = []
+    if tier == "thorough":
+        # deviation bound 2: every order reachable by two transpositions, on a reduced pattern/path alphabet
+        two = [o for o in neighbourhood_swaps(base, 2)][191:]
+        pats2 = Listed([(2, ()), (2, ((0, 3), (1, 17)))])
+        sp3 = Mapped(Product(two, pats2, ["Motl(df)", "EmMotl(df)"], WRITE), mk)
+        extra.append(Family("two-swap-orders", sp3, execute, describe=describe,
+                            expect=("file-header", "file-field-order", "load-values", "second-generation-identical")))
+    return extra + [
         Family("n-collides-with-field-count", sp2, execute, describe=describe,
                expect=("file-header", "file-field-order", "load-values", "second-generation-identical")),
         Family("em-roundtrip", sp, execute, describe=describe,
